@@ -24,7 +24,15 @@ lazy_static! {
 pub fn eval_int(expression: Pairs<Rule>) -> i64 {
     PRATT_PARSER
         .map_primary(|primary| match primary.as_rule() {
-            Rule::num => primary.as_str().parse::<i64>().unwrap(),
+            Rule::num => {
+                // a literal that does not fit into 64 bits saturates
+                // (like the other out-of-range results) instead of panicking
+                let text = primary.as_str();
+                match text.parse::<i64>() {
+                    Ok(x) => x,
+                    Err(_) => text.parse::<f64>().unwrap_or(0.0) as i64,
+                }
+            }
             Rule::expr => eval_int(primary.into_inner()),
             _ => unreachable!(),
         })
@@ -39,7 +47,7 @@ pub fn eval_int(expression: Pairs<Rule>) -> i64 {
                     (W(lhs) / W(rhs)).0
                 }
             }
-            Rule::power => lhs.pow(rhs as u32),
+            Rule::power => lhs.wrapping_pow(rhs as u32),
             _ => unreachable!(),
         })
         .parse(expression)
